@@ -672,6 +672,85 @@ fn inherited_default_cases(per_property: usize) -> Vec<InheritedDefault> {
     out
 }
 
+/// Every (class, canonical property) of the database that has a default, inherited ones included:
+/// a file of two instances of the class, one carrying the property and one lacking it.
+#[derive(Clone, Debug, Serialize, Deserialize)]
+pub struct DbDefault {
+    pub class: String,
+    pub prop: String,
+    pub lacking_first: bool,
+}
+
+fn db_default_cases() -> Vec<DbDefault> {
+    let supported = vals::binary_types();
+    let mut out = Vec::new();
+    for class in dbview::all_class_names() {
+        let cp = dbview::class_props(&class);
+        for sp in &cp.plain {
+            if sp.view.is_alias || sp.name != sp.view.canonical || sp.view.canonical == "Name" || sp.view.canonical == "UniqueId" {
+                continue;
+            }
+            let Some(ser) = sp.view.ser.as_ref() else { continue };
+            if !supported.contains(&sp.view.canonical_ty.variant_type()) || !supported.contains(&ser.ty.variant_type()) {
+                continue;
+            }
+            if dbview::ser_conflicts(&class).iter().any(|(_, c)| c.contains(&sp.view.canonical)) {
+                continue;
+            }
+            if oracle::default_as_read(&class, &sp.view.canonical).is_none() {
+                continue;
+            }
+            for lacking_first in [false, true] {
+                out.push(DbDefault { class: class.clone(), prop: sp.name.clone(), lacking_first });
+            }
+        }
+    }
+    out
+}
+
+fn db_default_body(c: &DbDefault, ctx: &mut CaseCtx) -> PropResult {
+    let view = dbview::resolve(&c.class, &c.prop).ok_or_else(|| Fail::new("harness:c08", "property vanished"))?;
+    let seed = crate::engine::fxhash(format!("{}.{}", c.class, c.prop).as_bytes());
+    let set = match &view.canonical_ty {
+        Ty::Enum(e) => {
+            let items = dbview::enum_items(e);
+            GVal::Enum(if items.is_empty() { 1 } else { items[(seed >> 8) as usize % items.len()] })
+        }
+        Ty::Value(t) => forest::value_from_seed(*t, ValProfile::binary(), seed),
+    };
+    // a Ref points at the first instance of the file, a Content object likewise
+    let set = match set {
+        GVal::Ref(_) => GVal::Ref(vals::GRef::Node(0)),
+        GVal::Content(vals::GContent::Object(_)) => GVal::Content(vals::GContent::Object(vals::GRef::Node(0))),
+        other => other,
+    };
+    let carrying = GNode { parent: None, class: c.class.clone(), name: "carries".into(), props: vec![(c.prop.clone(), set)] };
+    let lacking = GNode { parent: None, class: c.class.clone(), name: "lacks".into(), props: vec![] };
+    let f = GForest { nodes: if c.lacking_first { vec![lacking, carrying] } else { vec![carrying, lacking] }, roots: vec![0, 1] };
+    let Ok(bytes) = serialize(&f) else {
+        ctx.excluded("not serializable");
+        return Ok(());
+    };
+    let d = forest::observe(&read_binary(&bytes)?);
+    let got = d.roots.iter().find(|r| r.name == "lacks").and_then(|r| r.props.get(&view.roundtrip).cloned());
+    let def = oracle::default_as_read(&c.class, &view.canonical).unwrap();
+    let inherited = dbview::db().classes.get(c.class.as_str()).map(|k| !k.default_properties.contains_key(view.canonical.as_str())).unwrap_or(false);
+    ctx.label(if inherited { "default_inherited_from_a_superclass" } else { "default_stated_on_the_class" });
+    ctx.nontrivial();
+    let Some(got) = got else { fail!("c08:column-missing", "the {} that lacked {} has no such property after a sibling carried it", c.class, c.prop) };
+    ensure!(
+        oracle::val_matches(&def, &got, &Norm::binary()),
+        format!("c08:default:{:?}", def.ty()),
+        "a {} lacked {} ({}); database default is {:?}, file gave {:?}",
+        c.class,
+        c.prop,
+        if inherited { "default inherited from a superclass" } else { "default stated on the class" },
+        def,
+        got
+    );
+    Ok(())
+}
+
 fn inherited_default_body(c: &InheritedDefault, ctx: &mut CaseCtx) -> PropResult {
     let view = dbview::resolve(&c.class_a, &c.prop).ok_or_else(|| Fail::new("harness:c08", "property vanished"))?;
     let set_val = |salt: u64| match &view.canonical_ty {
@@ -758,6 +837,13 @@ pub fn run(ctx: &Ctx) -> PropertyReport {
         let cases = inherited_default_cases(usize::MAX);
         let mut r = ctx.run_list("inherited-defaults", cases, true, inherited_default_body);
         r.floor("alone_shows_database_default", 1000);
+        rep.push(r);
+    }
+    if sub.runs("database-defaults") {
+        let cases = if ctx.cfg.replay.is_some() { vec![] } else { db_default_cases() };
+        let mut r = ctx.run_list("database-defaults", cases, true, db_default_body);
+        r.floor("default_inherited_from_a_superclass", 50);
+        r.notes.push("every (class, canonical property) of the bundled database with a default value, stated or inherited, in both sibling orders".into());
         rep.push(r);
     }
     if sub.runs("shared-serialized-name") {
